@@ -84,14 +84,23 @@ import Blots.Gen.Builtins
                               ("," ~ (WHITESPACE | plain_newline)*)? ~ (comment ~ (WHITESPACE |
                               plain_newline)* | WHITESPACE | plain_newline)* ~ "}" }
 
+      do_statement     =  { (expression | comment) ~ (WHITESPACE* ~ comment)? }
+      return_statement = ${ WHITESPACE* ~ "return" ~ WHITESPACE+ ~ expression }
+      do_block         = ${ "do" ~ (WHITESPACE | plain_newline)+ ~ "{" ~ (comment ~ (WHITESPACE |
+                            plain_newline)+ | WHITESPACE | plain_newline)* ~ (WHITESPACE* ~
+                            do_statement ~ WHITESPACE* ~ (plain_newline+ | ";") ~ (comment ~
+                            (WHITESPACE | plain_newline)+ | WHITESPACE | plain_newline)*)* ~
+                            (comment ~ (WHITESPACE | plain_newline)* | WHITESPACE | plain_newline)*
+                            ~ return_statement ~ (WHITESPACE | plain_newline)* ~ "}" }
+
   THE FRAGMENT.  Of `term` the alternatives modelled are, in grammar order,
-      conditional | lambda | list | record | bool | string | null | identifier | number
-        | nested_expression
+      conditional | do_block | lambda | list | record | bool | string | null | identifier
+        | number | nested_expression
   with `number` restricted to the subset ASCII_DIGIT+ of `decimal_number` (no sign, no `_`
   groups, no fraction, no exponent, no `0b` / `0x` form); `postfix_op` completely.
   The model answers what pest answers on every text on which the alternatives left out cannot
   match at any term position it reaches:
-    * do_block needs `do` followed by whitespace, input_reference `#`; assignment `=` (not `==` / `=>`) after an identifier;
+    * input_reference needs `#`; assignment `=` (not `==` / `=>`) after an identifier;
     * a digit run followed by `_`digit, `.`digit, `e`/`E`[sign]digit, or starting `0b` / `0x`,
       or a sign directly in front of a digit where a term is expected (`+1`), is a longer
       `number` for pest.
@@ -444,6 +453,43 @@ def kwGap (kw : List Char) (cs : List Char) : Option (List Char) :=
 def thenLit : List Char := ['t', 'h', 'e', 'n']
 def elseLit : List Char := ['e', 'l', 's', 'e']
 
+/-! ### the fixed parts of a do-block -/
+
+/-- `(WHITESPACE | plain_newline)+` -/
+def wnPlus (cs : List Char) : Option (List Char) := (wnAtom cs).map wnStar
+
+/-- `"do" ~ (WHITESPACE | plain_newline)+ ~ "{" ~ (comment ~ (WHITESPACE | plain_newline)+ |
+    WHITESPACE | plain_newline)*` : where the statements start -/
+def doHead (cs : List Char) : Option (List Char) :=
+  match lit ['d', 'o'] cs with
+  | some r =>
+    (match wnPlus r with
+     | some ('{' :: r') => some (gapG r')
+     | _ => none)
+  | none => none
+
+/-- `plain_newline+ | ";"` : what separates the statements -/
+def stmtSep (cs : List Char) : Option (List Char) :=
+  match plainNewline cs with
+  | some r => some (star plainNewline (r.length + 1) r)
+  | none =>
+    match cs with
+    | ';' :: r => some r
+    | _ => none
+
+/-- the start of `return_statement = ${ WHITESPACE* ~ "return" ~ WHITESPACE+ ~ expression }` -/
+def retHead (cs : List Char) : Option (List Char) :=
+  match lit ['r', 'e', 't', 'u', 'r', 'n'] (skipWs cs) with
+  | some r => wsPlus r
+  | none => none
+
+/-- a statement of a do-block that is an expression becomes an item without comments (the
+    conversion without `preserve_comments`); a comment statement is dropped -/
+def consStmt (oe : Option Expr) (more : List Item) : List Item :=
+  match oe with
+  | some e => Item.mk [] e none :: more
+  | none => more
+
 /-! ### expression -/
 
 mutual
@@ -488,18 +534,81 @@ def operandR (_lam : Bool) : Nat → List Char → Res (List PItem × List Char)
        | .out => .out)
     | .fail => .fail
     | .out => .out
-/-- `term` (fragment): `conditional` first, then `lambda` — when one of them does not match,
-    the following alternatives are tried at the same position -/
+/-- `term` (fragment): `conditional` first, then `do_block`, then `lambda` — when one of them
+    does not match, the following alternatives are tried at the same position -/
 def termR : Nat → List Char → Res (Expr × List Char)
   | 0, _ => .out
   | fuel + 1, cs =>
     match condR fuel cs with
     | .ok x => .ok x
     | .fail =>
-      (match lamR fuel cs with
+      (match doR fuel cs with
        | .ok x => .ok x
-       | .fail => term2R fuel cs
+       | .fail =>
+         (match lamR fuel cs with
+          | .ok x => .ok x
+          | .fail => term2R fuel cs
+          | .out => .out)
        | .out => .out)
+    | .out => .out
+/-- `do_block` (compound-atomic: every blank and line break is spelled out by the rule): the
+    head, the statements, `(comment ~ (WHITESPACE | plain_newline)* | WHITESPACE |
+    plain_newline)*`, the `return` statement, `(WHITESPACE | plain_newline)*`, `}` -/
+def doR : Nat → List Char → Res (Expr × List Char)
+  | 0, _ => .out
+  | fuel + 1, cs =>
+    match doHead cs with
+    | some r1 =>
+      (match doStmtsR fuel r1 with
+       | .ok (stmts, r2) =>
+         (match retHead (gapH r2) with
+          | some r3 =>
+            (match exprR false fuel r3 with
+             | .ok (its, r4) =>
+               (match wnStar r4 with
+                | '}' :: r5 =>
+                  (match prattParse its with
+                   | some e => .ok (.doBlock stmts (.mk [] e none), r5)
+                   | none => .fail)
+                | _ => .fail)
+             | .fail => .fail
+             | .out => .out)
+          | none => .fail)
+       | .fail => .fail
+       | .out => .out)
+    | none => .fail
+/-- `(WHITESPACE* ~ do_statement ~ WHITESPACE* ~ (plain_newline+ | ";") ~ (comment ~ (WHITESPACE
+    | plain_newline)+ | WHITESPACE | plain_newline)*)*` : never fails; an iteration that fails —
+    no statement here (e.g. at `return`), or no separator behind it — gives everything back -/
+def doStmtsR : Nat → List Char → Res (List Item × List Char)
+  | 0, _ => .out
+  | fuel + 1, cs =>
+    match doStmtR fuel (skipWs cs) with
+    | .ok (oe, r1) =>
+      (match stmtSep (skipWs r1) with
+       | some r2 =>
+         (match doStmtsR fuel (gapG r2) with
+          | .ok (more, r3) => .ok (consStmt oe more, r3)
+          | .fail => .fail
+          | .out => .out)
+       | none => .ok ([], cs))
+    | .fail => .ok ([], cs)
+    | .out => .out
+/-- `do_statement = { (expression | comment) ~ (WHITESPACE* ~ comment)? }` (atomic here): the
+    converted expression (`none` for a comment) and the rest behind the optional trailing
+    comment; the blanks in front of a missing comment are skipped by the caller anyway -/
+def doStmtR : Nat → List Char → Res (Option Expr × List Char)
+  | 0, _ => .out
+  | fuel + 1, cs =>
+    match exprR false fuel cs with
+    | .ok (its, r) =>
+      (match prattParse its with
+       | some e => .ok (some e, itemTrail r)
+       | none => .fail)
+    | .fail =>
+      (match inlineComment cs with
+       | some r => .ok (none, itemTrail r)
+       | none => .fail)
     | .out => .out
 /-- `conditional = ${ "if" ~ WHITESPACE+ ~ expression ~ (WHITESPACE | NEWLINE)+ ~ "then" ~
     (WHITESPACE | NEWLINE)+ ~ expression ~ (WHITESPACE | NEWLINE)+ ~ "else" ~ (WHITESPACE |
